@@ -250,22 +250,23 @@ pub mod unit_trackers {
         //@anchor x0 scope=fn pos=after match="^let x_arr ="
         //@| let ghost xs = a1(x_arr);
         //@| proof { assert(xs =~= conv(x@).subrange(0, self.n_params as int)); }
-        //@anchor p0 scope=fn pos=after match="^let p_start ="
+        //@anchor p0 scope=fn pos=after match="^let \\w+ = if self \\. p_accept"
+        //@| let ghost ps0 = $lhs;
         //@| let ghost last0 = a1(self.last_state);
         //@anchor p1 scope=fn pos=before match="^self \\. last_state = x_arr"
         //@| proof {
         //@|     let pa = self.p_accept;
         //@|     // the fold over the single lane is exactly one EMA update
-        //@|     let accs = choose |accs: Seq<Fl>| #[trigger] fold_ok(ema_cl, seq![xs], seq![last0], p_start, accs, pa);
+        //@|     let accs = choose |accs: Seq<Fl>| #[trigger] fold_ok(ema_cl, seq![xs], seq![last0], ps0, accs, pa);
         //@|     assert(fold_step(ema_cl, accs[0], seq![xs][0], seq![last0][0], accs[1]));
-        //@|     assert(pa == ema(p_start, !arr_eq(xs, last0)));
+        //@|     assert(pa == ema(ps0, !arr_eq(xs, last0)));
         //@|     assert forall |fed: Seq<Seq<Fl>>| #[trigger] wf(*old(self), fed) && fin1(conv(x@)) implies
         //@|         val(pa) is Fin && 0real <= rv(pa) <= 1real && step_means_ok(fed, xs, a1(self.mean), a1(self.mean_sq), self.n_params as int) by {
         //@|         let n0 = fed.len() as int;
         //@|         let n1 = n0 + 1;
         //@|         let fed1 = fed.push(xs);
-        //@|         assert(val(p_start) is Fin && 0real <= rv(p_start) <= 1real);
-        //@|         lemma_ema_unit_interval(p_start, !arr_eq(xs, last0));
+        //@|         assert(val(ps0) is Fin && 0real <= rv(ps0) <= 1real);
+        //@|         lemma_ema_unit_interval(ps0, !arr_eq(xs, last0));
         //@|         assert(fin1(xs));
         //@|         assert forall |p: int| 0 <= p < self.n_params implies mean_at(a1(self.mean), a1(self.mean_sq), fed1, n1, p) by {
         //@|             lemma_csum_push(fed, xs, p, n0);
